@@ -55,7 +55,10 @@ LayerGeom(lg) ==
 
 Port(p) == <<KW("PORT")>> \o Opt(p.class, LAMBDA c : St1("CLASS", <<KW(c)>>))
            \o Cat(Map(LayerGeom, p.layers)) \o <<KW("END")>>
-Prop(pr) == <<ID(pr.name), (IF pr.vk = "str" THEN STR(pr.value) ELSE IF pr.vk = "num" THEN [k |-> "raw", v |-> pr.value] ELSE ID(pr.value))>>
+\* a record with vk = "split" is not a property: it ends the PROPERTY statement and opens the next one
+\* (PROPERTY n v n v ; and PROPERTY n v ; PROPERTY n v ; denote the same list)
+Prop(pr) == IF pr.vk = "split" THEN <<SEMI, KW("PROPERTY")>>
+            ELSE <<ID(pr.name), (IF pr.vk = "str" THEN STR(pr.value) ELSE IF pr.vk = "num" THEN [k |-> "raw", v |-> pr.value] ELSE ID(pr.value))>>
 Props(ps) == IF ps = <<>> THEN <<>> ELSE <<KW("PROPERTY")>> \o Cat(Map(Prop, ps)) \o <<SEMI>>
 Antenna(a) == <<KWU(a.key), NUM(a.val)>> \o Opt(a.layer, LAMBDA l : <<KW("LAYER"), ID(l)>>) \o <<SEMI>>
 
